@@ -20,7 +20,7 @@ P = {
         "C15_query_only_removed", "C15_query_only_removed_pinned",
         "C15_headers_name_by_name", "C15_pipeline_header_wins", "C15_pipeline_host_wins", "C15_host_is_forward_to",
         "C15_no_forwarded_passthrough", "C15_forwarded_extended_by_peer", "C15_method_body_untouched",
-        "C15_header_names_any_casing", "C15_spec_holds",
+        "C15_header_names_any_casing", "C15_request_path_end_to_end", "C15_spec_holds",
         "C15_F1_pinned_refuted", "C15_F4_pinned_refuted", "C15_F2_refuted", "C15_F3_refuted", "C15_F5_refuted",
         "C15_nonvacuous",
     ],
